@@ -117,6 +117,7 @@ type ArrayNode struct {
 type HashNode struct {
 	ExpressionNode
 	items map[Node]Node
+	order []Node // the keys of items in source order (a later duplicate key wins)
 }
 
 // ConditionalNode represents ternary operator (condition ? true : false)
